@@ -89,10 +89,10 @@ def _state_group(args):
         hrefs = hrefs_for(s, cfg)
         kinds = [k for k in KINDS if k in hrefs]
 
-        def run(report, klist):
+        def run(report, klist, depth="1"):
             dataprop = dav.P_CALDATA if report == "calendar" else dav.P_ADDRDATA
             coll = "cal" if report == "calendar" else "ab"
-            r = s.req("REPORT", s.url(coll), dict(dav.XML_CT, Depth="1"), dav.multiget_body(report, [hrefs[k] for k in klist], [dav.P_GETETAG, dataprop]))
+            r = s.req("REPORT", s.url(coll), dict(dav.XML_CT, Depth=depth) if depth is not None else dict(dav.XML_CT), dav.multiget_body(report, [hrefs[k] for k in klist], [dav.P_GETETAG, dataprop]))
             if r.status != 207:
                 return r.status, None
             ms = dav.parse_multistatus(r.body)
@@ -119,6 +119,14 @@ def _state_group(args):
         for report in ("calendar", "addressbook"):
             for k in kinds:
                 alone[(report, k)] = run(report, [k])
+        # the Depth header is not part of a multiget (RFC 4791 7.9 / RFC 6352 8.7): the answer for an href must not depend on it
+        for report in ("calendar", "addressbook"):
+            for k in kinds:
+                for dv in (None, "0", "infinity"):
+                    other = run(report, [k], depth=dv)
+                    if other != alone[(report, k)]:
+                        vio("answer-depends-on-depth-header:%s:%s" % (report, dv or "absent"), "href kind %s gets %s with Depth %s and %s with Depth 1" % (k, other, dv or "(no header)", alone[(report, k)]), {"report": report, "kind": k, "href": hrefs[k], "depth": dv})
+                        break
         lists = []
         for n in range(1, maxlen + 1):
             lists.extend(itertools.product(kinds, repeat=n))
